@@ -6,6 +6,7 @@ import (
 	"io/fs"
 	"os"
 
+	"tags.cncf.io/container-device-interface/verifshim/sched"
 	"tags.cncf.io/container-device-interface/verifshim/vfs"
 )
 
@@ -76,7 +77,7 @@ func RemoveAll(name string) error                             { return vfs.Remov
 func Rename(oldpath, newpath string) error                    { return vfs.Rename(oldpath, newpath) }
 func Link(oldname, newname string) error                      { return vfs.Link(oldname, newname) }
 func Symlink(oldname, newname string) error                   { return vfs.Symlink(oldname, newname) }
-func Readlink(name string) (string, error)                    { return os.Readlink(name) }
+func Readlink(name string) (string, error)                    { sched.Touch(vfs.Env); return os.Readlink(name) }
 func Open(name string) (*File, error)                         { return vfs.Open(name) }
 func Create(name string) (*File, error) {
 	return vfs.OpenFile(name, os.O_RDWR|os.O_CREATE|os.O_TRUNC, 0o666)
@@ -88,11 +89,11 @@ func CreateTemp(dir, pattern string) (*File, error) {
 	}
 	return vfs.CreateTemp(dir, pattern)
 }
-func MkdirTemp(dir, pattern string) (string, error) { return os.MkdirTemp(dir, pattern) }
+func MkdirTemp(dir, pattern string) (string, error) { sched.Touch(vfs.Env); return os.MkdirTemp(dir, pattern) }
 func Stat(name string) (FileInfo, error)            { return vfs.Stat(name) }
 func Lstat(name string) (FileInfo, error)           { return vfs.Lstat(name) }
-func Chmod(name string, mode FileMode) error        { return os.Chmod(name, mode) }
-func Chown(name string, uid, gid int) error         { return os.Chown(name, uid, gid) }
+func Chmod(name string, mode FileMode) error        { sched.Touch(vfs.Env); return os.Chmod(name, mode) }
+func Chown(name string, uid, gid int) error         { sched.Touch(vfs.Env); return os.Chown(name, uid, gid) }
 func SameFile(a, b FileInfo) bool                   { return os.SameFile(a, b) }
 func ReadDir(name string) ([]DirEntry, error) {
 	if _, err := vfs.ReadDirNames(name); err != nil {
